@@ -8,13 +8,13 @@ import (
 	"strings"
 )
 
-func tnum() *T  { return tp("num") }
-func tstr() *T  { return tp("str") }
-func tbool() *T { return tp("bool") }
-func ttime() *T { return tp("time") }
-func tlist(e *T) *T { return tp("list", e) }
+func tnum() *T        { return tp("num") }
+func tstr() *T        { return tp("str") }
+func tbool() *T       { return tp("bool") }
+func ttime() *T       { return tp("time") }
+func tlist(e *T) *T   { return tp("list", e) }
 func tmap(k, v *T) *T { return tp("map", k, v) }
-func tmaybe(e *T) *T { return tp("maybe", e) }
+func tmaybe(e *T) *T  { return tp("maybe", e) }
 func tobj(kv ...interface{}) *T {
 	o := &T{K: "obj"}
 	for i := 0; i < len(kv); i += 2 {
@@ -388,3 +388,82 @@ func tenvSx(vars []envVar) Sx {
 }
 
 var _ = fmt.Sprintf
+
+// sharedVarProg: a container literal whose FIRST element mentions one composite-typed variable several times (the checker
+// hands out the environment's own *Type node for an identifier, so the element type is a graph with a shared node) and
+// whose later element agrees with it at the first use and, when bad, disagrees at a later one.
+func (g *progGen) sharedVarProg(bad bool) string {
+	var comps []envVar
+	for _, v := range g.vars {
+		switch v.Ty.K {
+		case "list", "map", "obj", "maybe":
+			comps = append(comps, v)
+		}
+	}
+	v := comps[g.rn(len(comps))]
+	save := g.poison
+	g.poison = 0
+	good := g.Gen(v.Ty, 1)
+	x := g.Gen(v.Ty, 1)
+	if bad {
+		for {
+			o := g.randType(2)
+			if !refEq(o, v.Ty) {
+				x = g.Gen(o, 1)
+				break
+			}
+		}
+	}
+	g.poison = save
+	V := v.Name
+	var s string
+	switch g.rn(5) {
+	case 0:
+		s = fmt.Sprintf("[{a: %s, b: %s}, {a: %s, b: %s}]", V, V, good, x)
+	case 1:
+		s = fmt.Sprintf("[{a: %s, b: %s}, {b: %s, a: %s}]", V, V, x, good)
+	case 2:
+		s = fmt.Sprintf("[1: {a: %s, b: %s}, 2: {a: %s, b: %s}]", V, V, good, x)
+		if g.rn(2) == 0 {
+			return s + "[2].b"
+		}
+		return s
+	case 3:
+		s = fmt.Sprintf("[{a: %s, b: {c: %s}}, {a: %s, b: {c: %s}}]", V, V, good, x)
+		if g.rn(2) == 0 {
+			return s + "[1].b.c"
+		}
+		return s
+	default:
+		s = fmt.Sprintf("[{a: %s, b: [%s], c: %s}, {a: %s, b: [%s], c: %s}]", V, V, V, good, good, x)
+		if g.rn(2) == 0 {
+			return s + "[1].c"
+		}
+		return s
+	}
+	if g.rn(2) == 0 {
+		return s + "[1].b"
+	}
+	return s
+}
+
+// poolSweep: programs whose final operator is preceded by k distinct constants, so that the operand bytes emitted just
+// before it (constant-pool indices of its own operands) sweep over all byte values — where peepholes that look at "the
+// last byte emitted" and operand-width boundaries go wrong.
+func poolSweep(ks []int, tails []string) []string {
+	var out []string
+	for _, k := range ks {
+		cs := make([]string, k)
+		for i := range cs {
+			cs[i] = fmt.Sprint(1000 + i)
+		}
+		pre := "len([" + strings.Join(cs, ", ") + "]) >= 0"
+		for _, t := range tails {
+			out = append(out, pre+" && "+t)
+		}
+	}
+	return out
+}
+
+var sweepTails = []string{`!b`, `!f`, `!(x > y)`, `!(s == e)`, `!(t0 == t1)`, `!(xs == es)`, `!(m == em)`, `!isset(m, "k")`, `b`, `x > y`, `-x < y`, `o.p > 0`, `xs[0] > 0`, `if(b, f, b)`,
+	`!(t0 < t1)`, `!(s != e)`, `!(b == f)`, `!(b != f)`, `!(xs != es)`, `!(m != em)`, `!(t0 >= t1)`, `!(t0 <= t1)`, `!(t0 > t1)`, `!(t0 != t1)`}
